@@ -475,6 +475,116 @@ fn lite_wallets(rep: &mut Report, tier: &Tier) {
     }
 }
 
+/// Part 3 — a wallet that only watches. The C13 producer histories at genesis period 3 with a fee
+/// level (payments, two-output payments, dust outputs that are later collected instead of being
+/// rebroadcast, spends of the oldest output) are replayed block by block into a node whose wallet
+/// owns the payee key K2 and never builds anything: after every block the balance equals the sum
+/// of the listed outputs and those are the ledger's spendable in-window outputs of K2.
+fn passive_wallets(rep: &mut Report, tier: &Tier) {
+    use super::c13::{run_history_observed, Act, Step};
+    let g = 3u64;
+    let n = (2 * g + 5) as usize;
+    let mut hs: Vec<Vec<Step>> = vec![];
+    for fee in [6_000u64, 0] {
+        let base: Vec<Step> = (0..n).map(|i| Step { act: Act::Pay(fee), gt: i % 2 == 1, fork_before: false }).collect();
+        hs.push(base.clone());
+        for pos in 0..n {
+            for a in [Act::Dust(30, 6_000), Act::Dust(30, 0), Act::PayTwo(fee), Act::SpendOldest, Act::Empty] {
+                let mut s = base.clone();
+                s[pos].act = a.clone();
+                hs.push(s.clone());
+                if tier.thorough {
+                    for pos2 in (pos + 1)..n {
+                        let mut s2 = s.clone();
+                        s2[pos2].act = Act::SpendOldest;
+                        hs.push(s2);
+                    }
+                }
+            }
+        }
+    }
+    let results = par_map(&hs, workers(), |_, steps| {
+        let mut r = rep.child();
+        r.evaluations += 1;
+        let mut chain: Vec<Vec<u8>> = vec![];
+        {
+            let mut scratch = rep.child();
+            run_history_observed(g, steps, 8, false, &mut scratch, &mut |b: &[u8]| chain.push(b.to_vec()));
+        }
+        let p0 = match Prod::new(g, 5000, 0) {
+            Ok(p) => p,
+            Err(e) => {
+                r.machinery(e);
+                return r;
+            }
+        };
+        let k2 = key(2);
+        let mut node = LedgerNode::new(k2, p0.cfg.clone());
+        let mut ledger = RefLedger::default();
+        let ctx = json!({"g": g, "steps": steps.iter().map(|s| format!("{:?}", s.act)).collect::<Vec<_>>()});
+        let mut on_chain: Vec<Vec<u8>> = vec![p0.chain[0].clone()];
+        on_chain.extend(chain.into_iter());
+        for b in on_chain.iter() {
+            let blk = decode_block(b);
+            match node.add_block_bytes(b) {
+                Outcome::Done(_) => {}
+                o => {
+                    r.violate("passive-wallet/abort", o.label(), ctx.clone());
+                    return r;
+                }
+            }
+            if node.tip().1 != blk.hash {
+                // a competitor that lost: not part of the chain the ledger follows
+                continue;
+            }
+            // the reference follows the node's longest chain: rebuild when the block is not a child of the last applied one
+            ledger = {
+                let mut l = RefLedger::default();
+                let mut path: Vec<Block> = vec![];
+                let mut h = blk.hash;
+                while let Some(x) = on_chain.iter().map(|y| decode_block(y)).find(|y| y.hash == h) {
+                    h = x.previous_block_hash;
+                    path.push(x);
+                }
+                for x in path.iter().rev() {
+                    l.apply(x);
+                }
+                l.missing_inputs.clear();
+                l
+            };
+            let tip = blk.id;
+            let wal = node.wallet.try_read().unwrap();
+            let sum: u128 = wal.unspent_slips.iter().map(|k| wal.slips.get(k).map(|s| s.amount as u128).unwrap_or(0)).sum();
+            if sum != wal.get_available_balance() as u128 {
+                r.violate("passive-wallet/balance-differs-from-unspent-sum", format!("block {}: balance {} sum {}", tip, wal.get_available_balance(), sum), ctx.clone());
+                return r;
+            }
+            let want: BTreeSet<SaitoUTXOSetKey> = ledger.unspent_of(&k2.public).into_iter().filter(|s| s.block_id + g > tip).map(|s| s.get_utxoset_key()).collect();
+            let edge = |k: &SaitoUTXOSetKey| Slip::parse_slip_from_utxokey(k).map(|s| s.block_id + g == tip).unwrap_or(false);
+            let mine: BTreeSet<SaitoUTXOSetKey> = wal.unspent_slips.iter().cloned().collect();
+            for k in want.iter() {
+                if !mine.contains(k) {
+                    let s = Slip::parse_slip_from_utxokey(k).unwrap();
+                    r.violate("passive-wallet/misses-spendable-output", format!("block {}: ledger output {}-{}-{} amount {} is not in the watching wallet", tip, s.block_id, s.tx_ordinal, s.slip_index, s.amount), ctx.clone());
+                    return r;
+                }
+            }
+            for k in mine.iter() {
+                if !want.contains(k) && !edge(k) {
+                    let s = Slip::parse_slip_from_utxokey(k).unwrap();
+                    r.violate(&format!("passive-wallet/lists-unspendable-output/{}", if ledger.utxo.contains(k) { "expired" } else { "not-on-ledger" }), format!("block {}: the watching wallet lists {}-{}-{} amount {} as unspent", tip, s.block_id, s.tx_ordinal, s.slip_index, s.amount), ctx.clone());
+                    return r;
+                }
+            }
+            r.outcome("passive-wallet:agrees-with-ledger-after-block");
+        }
+        r
+    });
+    for r in results {
+        rep.merge(r);
+    }
+}
+
 /// digest of a wallet-world state: the observable state plus the pool's iteration order (the
 /// order in which the next block will carry the pooled transactions decides the coordinates
 /// of the outputs the wallet is going to own)
@@ -669,7 +779,8 @@ pub fn main(tier: Tier, _replay: Option<String>) -> i32 {
     }
     rep.distinct = all_seen.iter().map(|h| hex::encode(&h[0..8])).collect();
     lite_wallets(&mut rep, &tier);
+    passive_wallets(&mut rep, &tier);
     rep.sample(json!({"history": ["In1", "Block", "OutSmall", "Block", "ReorgAway1", "ReorgBack"]}));
-    rep.required_outcomes = vec!["wallet-tx-built".into(), "reorg-away".into(), "reorg-back".into(), "lite-wallet:built-transaction-valid-on-the-full-ledger".into(), "lite-wallet:placeholders-folded-up-to-2".into()];
+    rep.required_outcomes = vec!["wallet-tx-built".into(), "reorg-away".into(), "reorg-back".into(), "lite-wallet:built-transaction-valid-on-the-full-ledger".into(), "lite-wallet:placeholders-folded-up-to-2".into(), "passive-wallet:agrees-with-ledger-after-block".into()];
     rep.finish()
 }
